@@ -116,6 +116,29 @@ Theorem C19_oracle_atoms :
 Proof. exact oracle_atoms. Qed.
 Print Assumptions C19_oracle_atoms.
 
+(* validator objects live across rules and across runs.  rule_part E vs r (Proofs/ValidatorsP.v) is
+   what the validators that run on r return for r, computed from r alone.  Both calls of
+   validate_rules on the same SigmaValidator return exactly these per-rule issues, rule by rule,
+   followed by finalisation issues (which are never attached to a single rule): what a rule is told
+   does not depend on the rules validated before it, on their ids, or on an earlier run *)
+Theorem C19_rule_issues_independent_of_history :
+  forall E vs rules l1 l2,
+    validate_twice E vs rules = Ok (l1, l2) ->
+    exists F1 F2,
+      l1 = flat_map (rule_part E vs) rules ++ F1 /\ l2 = flat_map (rule_part E vs) rules ++ F2 /\
+      Forall (fun i => ikey i = None) F1 /\ Forall (fun i => ikey i = None) F2.
+Proof. exact second_run_per_rule. Qed.
+Print Assumptions C19_rule_issues_independent_of_history.
+
+(* ... and they are the issues the rule gets when it is validated alone *)
+Theorem C19_rule_issues_as_if_alone :
+  forall E vs rules l r,
+    validate E vs rules = Ok l -> In r rules ->
+    validate E vs [r] = Ok (rule_part E vs r ++ final_part E vs [r]) /\
+    (forall i, In i (rule_part E vs r) -> In i l).
+Proof. exact rule_part_alone. Qed.
+Print Assumptions C19_rule_issues_as_if_alone.
+
 (* non-vacuity: a collection on which every kind of issue arises *)
 Open Scope N_scope.
 Definition ex_rule (k : N) (i : option str) (t : str) (p : list str) (d : list str) (c : str) : rule :=
